@@ -33,7 +33,7 @@ def gen_case(rng, ver, tier, force=None):
     turns = force.get("turns", rng.randint(1, 4 if tier != "quick" else 3))
     spec = {"ver": ver, "k": k, "m": m, "mode": mode, "exc": exc}
     if ver == "v1":
-        spec["in_shapes"] = [rng.choice(["v", "v", "allowed", "mask"]) for _ in range(k)]
+        spec["in_shapes"] = [rng.choice(["v", "v", "allowed", "mask"] + (["evt"] if force.get("evt") else [])) for _ in range(k)]
         spec["out_shapes"] = [rng.choice(["v", "v", "allowed"]) for _ in range(m)]
         spec["dialog_action"] = bool(mode == "dialog" and rng.random() < 0.3)
         if k >= 2 and rng.random() < 0.15:
